@@ -1,4 +1,5 @@
 import PhyVerif.Driver.Json
+import PhyVerif.Driver.Rat
 import PhyVerif.Driver.C16
 import PhyVerif.Model.C03
 import PhyVerif.Spec.C03
@@ -9,8 +10,20 @@ open Lean PhyVerif PhyVerif.C03
 def mkRec (dur nch : Nat) : List (List Int) :=
   (List.range dur).map fun r => (List.range nch).map fun c => Int.ofNat (r * nch + c + 1)
 
+/-- the same recording with exact rational cells `r * nch + c + 1 + bias` (for the routes that multiply by the
+unit factor) -/
+def mkRecQ (dur nch : Nat) (bias : Int) : List (List Rat) :=
+  (List.range dur).map fun r => (List.range nch).map fun c => ((Int.ofNat (r * nch + c + 1) + bias : Int) : Rat)
+
 def jIMat (m : List (List Int)) : Json := jList jInts m
 def jI3 (m : List (List (List Int))) : Json := jList jIMat m
+def jQ3 (m : List (List (List Rat))) : Json := jList jRatMat m
+
+/-- optional rational field (default given) -/
+def getRatD (j : Json) (k : String) (d : Rat) : R Rat :=
+  match j.getObjVal? k with
+  | .ok v => if v.isNull then pure d else asRat v
+  | .error _ => pure d
 
 def runC03 (op : String) (j : Json) : R Json := do
   let dur ← getNat j "dur"; let nch ← getNat j "nch"
@@ -22,23 +35,55 @@ def runC03 (op : String) (j : Json) : R Json := do
     pure (Json.mkObj [("model", jI3 (extractWaveforms A spikes n ch)),
                       ("spec", jI3 (spikes.map fun s => window A s n ch))])
   | "export" =>
+    -- the exported file as it loads: windows of the biased recording times the unit factor, exactly
     let spikes ← getInts j "spikes"; let chans ← getIntss j "chans"
     let ivs ← fld j "ivs" >>= asList asPairN
     let nloc ← getNat j "nloc"
-    let f := exportWaveforms (fun (x : Int) => x) A ivs spikes chans n nloc
-    pure (Json.mkObj [("model", jOpt jI3 (npLoad f)),
-                      ("spec", jI3 ((spikes.zip chans).map fun sc => window A sc.1 n sc.2)),
+    let f ← getRatD j "factor" 1; let bias := (← getOptInt j "bias").getD 0
+    let AQ := mkRecQ dur nch bias
+    let scale : Rat → Rat := fun x => x * f
+    let file := exportWaveforms scale AQ ivs spikes chans n nloc
+    pure (Json.mkObj [("model", jOpt jQ3 (npLoad file)),
+                      ("spec", jQ3 ((spikes.zip chans).map fun sc => scaleW scale (window AQ sc.1 n sc.2))),
                       ("tile", Json.bool (PhyVerif.C16.intervalsTile dur ivs))])
   | "lookup" =>
+    -- export -> the three store files -> load -> lookup
     let ids ← getNats j "ids"; let samples ← getInts j "samples"; let chans ← getIntss j "chans"
     let query ← getNats j "query"; let chq ← getNats j "chq"
-    let st : Store Int := ⟨ids, chans, (samples.zip chans).map fun sc => window A sc.1 n sc.2⟩
-    pure (Json.mkObj [("model", jOpt jI3 (getSpikeWaveforms st query chq n)),
-                      ("spec", jI3 (query.map fun q =>
+    let ivs ← fld j "ivs" >>= asList asPairN
+    let nloc ← getNat j "nloc"
+    let f ← getRatD j "factor" 1; let bias := (← getOptInt j "bias").getD 0
+    let AQ := mkRecQ dur nch bias
+    let scale : Rat → Rat := fun x => x * f
+    let files : SubsetFiles Rat := ⟨ids, chans, exportWaveforms scale AQ ivs samples chans n nloc⟩
+    pure (Json.mkObj [("model", jOpt jQ3 ((loadSubset files).bind fun st => getSpikeWaveforms st query chq n)),
+                      ("spec", jQ3 (query.map fun q =>
                           let p := ids.idxOf q
-                          let ind := chans.getD p []
-                          (window A (samples.getD p 0) n (chq.map fun c =>
-                              if ind.contains (Int.ofNat c) then Int.ofNat c else -1))))])
+                          lookupSpec scale AQ (samples.getD p 0) n (chans.getD p []) chq)),
+                      ("tile", Json.bool (PhyVerif.C16.intervalsTile dur ivs))])
+  | "subset" =>
+    -- TemplateModel: save_spikes_subset_waveforms (after the selection) -> reload -> get_waveforms
+    let samples ← getInts j "spike_samples"; let templates ← getNats j "spike_templates"
+    let orders ← getIntss j "orders"; let sel ← getNats j "sel"
+    let maxN ← getNat j "max_n"; let closest ← getNat j "closest"
+    let query ← getNats j "query"; let chq ← getNats j "chq"
+    let ivs ← fld j "ivs" >>= asList asPairN
+    let f ← getRatD j "factor" 1
+    let AQ := mkRecQ dur nch 0
+    let scale : Rat → Rat := fun x => x * f
+    let nc := subsetWidth maxN closest
+    let files := saveSubset scale AQ ivs samples templates orders sel n nc
+    let store := loadSubset files
+    let stored := query.all sel.contains
+    pure (Json.mkObj [
+      ("model", jQ3 (getWaveforms store AQ samples query chq n)),
+      ("spec", jQ3 (if stored then
+          query.map fun q => lookupSpec scale AQ (samples.getD q 0) n
+            (templateNChannels true (orders.getD (templates.getD q 0) []) nc) chq
+        else query.map fun q => window AQ (samples.getD q 0) n (chq.map Int.ofNat))),
+      ("store_ids", jNats files.spikes), ("store_channels", jIMat files.channels),
+      ("loads", Json.bool store.isSome), ("nc", jNat nc), ("all_stored", Json.bool stored),
+      ("tile", Json.bool (PhyVerif.C16.intervalsTile dur ivs))])
   | _ => .error s!"C03: unknown op {op}"
 
 end PhyVerif.Driver
